@@ -102,7 +102,7 @@ def single_specs(rng, modelled_only):
     """one spec per single option (with a randomly chosen parameter)"""
     out = [("case", mk(case=True)), ("strty", mk(strty=True)), ("numty", mk(numty=True)),
            ("sig", mk(sig=rng.choice([0, 0, 1, 2, 3] if modelled_only else [0, 1, 2, 3, 5]))),
-           ("eps", mk(eps=rng.choice([0.5, 1.0, 2.0, 0.25] if modelled_only else [0.5, 1.0, 0.01, 1e-3, 0.3]))),
+           ("eps", mk(eps=rng.choice([0.5, 1.0, 2.0, 0.25] if modelled_only else [0.5, 1.0, 1.0, 2.0, 0.01, 1e-3, 0.3]))),
            ("excl", mk(excl=rng.choice([["int"], ["str"], ["float"], ["bool"], ["list"], ["dict"], ["NoneType"], ["int", "str"],
                                         ["set"], ["bytes"], ["tuple"]]))),
            ("private", mk(private=True, base_private=False))]
@@ -1157,8 +1157,14 @@ def gen_pairs(rng, sp, n, rich):
                 a = {"k": a}
         r = rng.random()
         log = []
+        if _NUMX and rng.random() < 0.3:
+            # focus: a small structure of numbers of many types (Decimal, numpy scalars, extreme magnitudes), altered almost everywhere
+            xs = [numx_atom(rng) if rng.random() < 0.7 else gen_atom(rng, True) for _ in range(rng.randint(1, 4))]
+            a = rng.choice([lambda: {"p": xs[0], "q": xs[1:]}, lambda: list(xs), lambda: {"k": {"n": xs[0]}, "l": tuple(xs[1:])},
+                            lambda: xs[0]])()
+            r = 0.0
         if r < 0.5:
-            b = normalise(rng, a, sp, rich, rng.choice([0.3, 0.6, 0.9]), log)
+            b = normalise(rng, a, sp, rich, rng.choice([0.3, 0.6, 0.9]) if not _NUMX else 0.9, log)
             fam = "alt"
         elif r < 0.68:
             b = normalise(rng, a, sp, rich, 0.4, log)
